@@ -35,6 +35,13 @@ static OK: AtomicBool = AtomicBool::new(false);
 static ERR: AtomicU8 = AtomicU8::new(0);
 static EXC: AtomicU8 = AtomicU8::new(0);
 static ITEMS: AtomicU32 = AtomicU32::new(0);
+/// per-item results of the read sinks: plain cells, written once after the loop (atomics inside the unrolled loop
+/// and behind a boxed closure inflated the equation system to ~24 GB)
+static mut R_ITEMS: u32 = 0;
+static mut R_HIT: bool = false;
+static mut R_INDEX: u16 = 0;
+static mut R_VALUE: u16 = 0;
+static mut R_PROBE: u16 = 0;
 static SEQ_OK: AtomicBool = AtomicBool::new(true);
 static PROBE: AtomicU16 = AtomicU16::new(0);
 static PROBE_HIT: AtomicBool = AtomicBool::new(false);
@@ -71,9 +78,8 @@ fn bits_sink(r: Result<BitIterator, RequestError>) {
         Ok(it) => {
             CALLS.fetch_add(1, Relaxed);
             OK.store(true, Relaxed);
-            let probe = PROBE.load(Relaxed);
+            let probe = unsafe { R_PROBE };
             let mut k: u16 = 0;
-            // a symbolic probe position records one arbitrary item: checking it checks every item
             let mut hit = false;
             let mut pi = 0u16;
             let mut pv = 0u16;
@@ -85,10 +91,12 @@ fn bits_sink(r: Result<BitIterator, RequestError>) {
                 }
                 k = k.wrapping_add(1);
             }
-            ITEMS.store(k as u32, Relaxed);
-            PROBE_HIT.store(hit, Relaxed);
-            PROBE_INDEX.store(pi, Relaxed);
-            PROBE_VALUE.store(pv, Relaxed);
+            unsafe {
+                R_ITEMS = k as u32;
+                R_HIT = hit;
+                R_INDEX = pi;
+                R_VALUE = pv;
+            }
         }
         Err(e) => record_err(e),
     }
@@ -99,9 +107,8 @@ fn regs_sink(r: Result<RegisterIterator, RequestError>) {
         Ok(it) => {
             CALLS.fetch_add(1, Relaxed);
             OK.store(true, Relaxed);
-            let probe = PROBE.load(Relaxed);
+            let probe = unsafe { R_PROBE };
             let mut k: u16 = 0;
-            // a symbolic probe position records one arbitrary item: checking it checks every item
             let mut hit = false;
             let mut pi = 0u16;
             let mut pv = 0u16;
@@ -113,10 +120,12 @@ fn regs_sink(r: Result<RegisterIterator, RequestError>) {
                 }
                 k = k.wrapping_add(1);
             }
-            ITEMS.store(k as u32, Relaxed);
-            PROBE_HIT.store(hit, Relaxed);
-            PROBE_INDEX.store(pi, Relaxed);
-            PROBE_VALUE.store(pv, Relaxed);
+            unsafe {
+                R_ITEMS = k as u32;
+                R_HIT = hit;
+                R_INDEX = pi;
+                R_VALUE = pv;
+            }
         }
         Err(e) => record_err(e),
     }
@@ -887,6 +896,13 @@ fn c03_limit_regs_mbap() {
 // harnesses call `ReadBits::handle_response` / `ReadRegisters::handle_response` directly with the reply BODY (what
 // `Request::handle_response` passes on after it matched the function code) and `mem::forget` the request.
 // Exactly-once across drop is decided on the bare promise types by c10_promise_exactly_once.
+//
+// WHY THESE ARE STILL EXPENSIVE (diagnosed on a throw-away copy of the source, never used as evidence): in
+// `read_*::Promise::success`, `self.inner.take()` moves the `PromiseInner` enum by value, CBMC's symex loses its
+// discriminant and explores the `Oneshot` arm as well, where `iter.collect()` / `collect_vec()` builds a Vec of
+// symbolic length. With that one arm removed the 3-register query drops from 23.6 GB / 568 s to 7.3 GB / 6.7 s.
+// The arm is repository code and real client behaviour (decided separately by c04_oneshot_promises), so it is NOT
+// stubbed; instead the bounds are small and the register query runs in the thorough tier only.
 
 fn read_bits_body<const MAXQ: u16, const L: usize>() {
     let start: u16 = kani::any();
@@ -894,7 +910,7 @@ fn read_bits_body<const MAXQ: u16, const L: usize>() {
     kani::assume(count >= 1 && count <= MAXQ && (start as u32) + (count as u32) <= 65536);
     let range = must!(must!(AddressRange::try_from(start, count), "valid range").of_read_bits(), "within read limit");
     let probe: u16 = kani::any();
-    PROBE.store(probe, Relaxed);
+    unsafe { R_PROBE = probe };
     let body: [u8; L] = kani::any();
     let len: usize = kani::any();
     kani::assume(len <= L);
@@ -908,12 +924,12 @@ fn read_bits_body<const MAXQ: u16, const L: usize>() {
         Ok(()) => {
             assert!(genuine, "[C04] success only for a reply of exactly the length implied by the request");
             assert!(CALLS.load(Relaxed) == 1 && OK.load(Relaxed), "[C10] success completes the request exactly once with a value");
-            assert!(ITEMS.load(Relaxed) == count as u32, "[C04] exactly `count` values are returned");
+            assert!((unsafe { R_ITEMS }) == count as u32, "[C04] exactly `count` values are returned");
             if probe < count {
                 // address of an arbitrary item. Its VALUE (bit `pos % 8` of byte `pos / 8`, LSB first) is decided
                 // for every (range, pos) by the one-step lemma c07_value_iterators_step on the same iterator:
                 // equating two symbolic-shift extractions over 9 unrolled items exhausted 30 GB here.
-                assert!(PROBE_HIT.load(Relaxed) && PROBE_INDEX.load(Relaxed) == start + probe, "[C04] values are indexed upward from the requested start address");
+                assert!((unsafe { R_HIT }) && (unsafe { R_INDEX }) == start + probe, "[C04] values are indexed upward from the requested start address");
             }
         }
         Err(e) => {
@@ -947,7 +963,7 @@ fn read_regs_body<const MAXQ: u16, const L: usize>() {
     kani::assume(count >= 1 && count <= MAXQ && (start as u32) + (count as u32) <= 65536);
     let range = must!(must!(AddressRange::try_from(start, count), "valid range").of_read_registers(), "within read limit");
     let probe: u16 = kani::any();
-    PROBE.store(probe, Relaxed);
+    unsafe { R_PROBE = probe };
     let body: [u8; L] = kani::any();
     let len: usize = kani::any();
     kani::assume(len <= L);
@@ -959,11 +975,11 @@ fn read_regs_body<const MAXQ: u16, const L: usize>() {
         Ok(()) => {
             assert!(genuine, "[C04] success only for a reply of exactly the length implied by the request");
             assert!(CALLS.load(Relaxed) == 1 && OK.load(Relaxed), "[C10] success completes the request exactly once with a value");
-            assert!(ITEMS.load(Relaxed) == count as u32, "[C04] exactly `count` values are returned");
+            assert!((unsafe { R_ITEMS }) == count as u32, "[C04] exactly `count` values are returned");
             if probe < count {
-                assert!(PROBE_HIT.load(Relaxed) && PROBE_INDEX.load(Relaxed) == start + probe, "[C04] values are indexed upward from the requested start address");
+                assert!((unsafe { R_HIT }) && (unsafe { R_INDEX }) == start + probe, "[C04] values are indexed upward from the requested start address");
                 let v = be16(body[1 + 2 * probe as usize], body[2 + 2 * probe as usize]);
-                assert!(PROBE_VALUE.load(Relaxed) == v, "[C04] returned registers are exactly those encoded in the reply (big endian)");
+                assert!((unsafe { R_VALUE }) == v, "[C04] returned registers are exactly those encoded in the reply (big endian)");
             }
         }
         Err(e) => {
@@ -979,12 +995,15 @@ fn read_regs_body<const MAXQ: u16, const L: usize>() {
 
 //@ props: C04
 //@ heavy: yes
+//@ tier: thorough
 //@ peer: yes
-//@ timeout: 1200
-//@ fns: client::requests::read_registers::ReadRegisters::handle_response, types::RegisterIterator::parse_all, <RegisterIterator as Iterator>::next, read_registers::Promise::success (callback arm)
+//@ timeout: 2400
+//@ fns: client::requests::read_registers::ReadRegisters::handle_response, types::RegisterIterator::parse_all, <RegisterIterator as Iterator>::next, read_registers::Promise::success (callback arm; needs ~24 GB resident, 9 min)
 //@ bounds: requested count 1..=3 at every start address, every reply body of 0..=8 bytes, symbolic probe, all decode levels; unwind 6
 #[kani::proof]
 #[kani::unwind(6)]
-fn c04_read_regs_body_q() {
+fn c04_read_regs_body_t() {
     read_regs_body::<3, 8>();
 }
+
+
